@@ -39,7 +39,11 @@
    "the actual dictionary".  get_component(False) and get_platform_*_variables(False) invalidate when they hand
    out (the mutators built on them are the operations above); get_components(False) never invalidates.  A write
    through such a reference at any LATER time is LiveWrite / LiveVarWrite (the description changes, the cache does
-   not); Invalidate is invalidate_cache_for_component.  [ok_hist] is the discipline under which they are safe. *)
+   not); Invalidate is invalidate_cache_for_component.  [ok_hist] is the discipline under which they are safe.
+   (c) The other read-only calls (ReadOnly): get_component_configuration in its not fully resolved modes, instance,
+   replicate, validate, copy, the blueprint / environment accessors ...  They build their answers by layering
+   (FlowIR.override_object, in place) and resolving (FlowIR.fill_in, in place) COPIES of the blueprints, variables
+   and components, and they neither read nor fill the cache: no-ops on the state. *)
 From Coq Require Import String Ascii List Bool ZArith Arith Lia.
 Import ListNotations.
 Require Import V.Lib.PyStr V.Lib.JTree V.Conf.Model.
@@ -131,7 +135,17 @@ Inductive op :=
   | LiveVarWrite (p : string) (var : string) (x : jv)
       (* ref[var] = x where ref was obtained earlier from get_platform_global_variables(p, return_copy=False)
          (the cache was cleared when the reference was handed out, not now) *)
-  | Invalidate (s : Z) (n : string).                            (* invalidate_cache_for_component((s, n)) *)
+  | Invalidate (s : Z) (n : string)                             (* invalidate_cache_for_component((s, n)) *)
+  | ReadOnly (call : string).
+      (* any OTHER read-only call of the interface ([call] names it; the harness enumerates them in
+         Driver.read_only): get_component_configuration in a mode that is not the fully resolved one (raw=True,
+         include_default=False, is_primitive=True or inject_missing_fields=False: need_fully_resolved_flowir is
+         False, the cache is neither read nor filled) also through configurationForNode / getOptionForNode of
+         conf.py and graph.py, get_component_variable_references, instance(platform, ...), replicate(platform),
+         validate(), copy(), the get_*_blueprint accessors, get_environment(s), environments,
+         get_stage_description, get_component_identifiers, get_placeholder_identifiers, ...  They layer copies of
+         the description (FlowIR.override_object / fill_in work in place, on copies): neither the description nor
+         the cache changes, whether the call returns or raises. *)
 
 (* outcome of a query *)
 Inductive qr :=
@@ -319,6 +333,7 @@ Definition mutate (d : doc) (o : op) : doc * action * obs :=
       end
   | Query _ _ _ | MutateResult => (d, ANone, ODone)
   | MutateArg _ _ _ _ => (d, ANone, ODone)
+  | ReadOnly _ => (d, ANone, ODone)
   | LiveWrite s n r x => let '(d', _, ob) := comp_op d s n (set_route r x) in (d', ANone, ob)
   | LiveVarWrite p var x =>
       if known d p then (with_vars d (set_path [p; "global"; var] x (d_variables d)), ANone, ODone)
@@ -376,6 +391,7 @@ Section Matcher.
     | Query p s n => query st p s n
     | MutateResult => (st, ODone)       (* results are copies: nothing of the object is reachable from them *)
     | MutateArg _ _ _ _ => (st, ODone)  (* arguments are stored as copies: the same *)
+    | ReadOnly _ => (st, ODone)         (* the other read-only calls work on copies and never touch the cache *)
     | _ => let '(d', a, ob) := mutate (s_doc st) o in
            ({| s_doc := d'; s_cache := apply_action a (s_cache st) |}, ob)
     end.
